@@ -573,3 +573,10 @@ func vfAllocs() uint64 {
 }
 
 func vfStack() string { return string(rtdbg.Stack()) }
+
+func vfB2i(b bool) int {
+	if b {
+		return 1
+	}
+	return 0
+}
